@@ -68,6 +68,16 @@ def run(ctx):
             if "slice bounds out of range" in o["crash"]:
                 kind = "cap(V)"
             sig = "%s: %s %s after %s" % (kind, o["m"], s(o["p"]), hist[-2] if len(hist) > 1 else "nothing")
+        elif o["op"] == "hreq":
+            what = "hammer phase (many goroutines, fixed routes %r): %d requests %s %s observed relay=%s handler=%s crash=%r" % (
+                [x for x in hist if x.startswith("reg")], o["cnt"], o["m"], s(o["p"]),
+                {"route": o["relay"]["id"], "params": [s(v) for v in o["relay"]["v"]], "status": o["relay"]["st"]},
+                {"route": o["handler"]["id"], "params": [s(v) for v in o["handler"]["v"]], "status": o["handler"]["st"]}, o["crash"])
+            sig = "hammer: concurrent requests observe another request's state"
+        elif o["op"] == "hsum":
+            what = "hammer phase: of %d concurrent requests %d received a request id already handed out and %d saw their id change during the request%s" % (
+                o["cnt"], o["dups"], o["changed"], ("; " + o["crash"]) if o["crash"] else "")
+            sig = "hammer: request ids not unique / not constant"
         else:
             ctx.level = "exploration"
             ctx.notes.append("DRIFT: registration of %r accepted=%s differs from the model (history not judged further)" % (UNIVERSE[o["u"] - 1], o["acc"]))
@@ -81,9 +91,12 @@ def run(ctx):
         "traces_validated_against_impl": len(rows), "evaluations": nreq,
         "distinct_nontrivial": reused,
         "rule": "histories of one Mux: all sequences of <= %d operations over 7 registrations + 8 paths x 3 handler behaviours on one "
-                "OS thread (maximal Store reuse), seeded histories of 5-14 operations, and 8-goroutine batches with registrations in "
-                "between; non-trivial = requests that really ran on a recycled Store (pointer seen before)" % (2 if q else 3),
+                "OS thread (maximal Store reuse), seeded histories of 5-14 operations, 8-goroutine batches with registrations in "
+                "between, and 3 hammer phases (4 goroutines per CPU for 1.5 s on fixed routes; distinct observations judged by TLC, "
+                "request ids compared among all requests); non-trivial = requests that really ran on a recycled Store (pointer seen before)" % (2 if q else 3),
         "exhaustive": True, "requests": nreq, "requests_on_recycled_store": reused, "bad_histories": len(bad),
+        "hammer_requests": sum(o["cnt"] for h_ in rows if h_["kind"] == "hammer" for o in h_["ops"] if o["op"] == "hsum"),
+        "hammer_distinct_observations": sum(1 for h_ in rows if h_["kind"] == "hammer" for o in h_["ops"] if o["op"] == "hreq"),
     })
     h = rows[min(len(rows) - 1, 500)]
     ctx.sample([("reg %s %s" % UNIVERSE[x["u"] - 1]) if x["op"] == "reg" else
